@@ -52,6 +52,9 @@ static std::pair<long, int> run_history(const uint8_t* data, size_t size, bool c
   int spy = -1, bystander = -1;
   if (f.ConsumeBool()) { spy = h.add_client(); h.add_rule(spy, "eavesdrop='true'"); }
   if (f.ConsumeBool()) { bystander = h.add_client(); h.add_rule(bystander, "type='signal'"); h.add_rule(bystander, "type='method_call'"); }
+  // ordinary clients may hold rules too (some eavesdropping): the addressed recipient must still get exactly one copy
+  { static const char* const rules[] = {"eavesdrop='true'", "type='signal'", "interface='com.vp.T'", "eavesdrop='true',member='Tok'", "eavesdrop='true',type='error'"};
+    for (int i = 0; i < nclients; i++) if (rare(f, 3)) h.add_rule(i, rules[pick(f, 5)]); }
   int total = (int)h.bus.nclients();
   // initial owners
   h.own(0, kPool[0], (uint32_t)pick(f, 8));
